@@ -269,6 +269,8 @@ func checkC12(P *Program, r *Result, tier string) {
 	}
 	// a short header that lacks the marker is still answered with BAD_VERSION: the test needs 4 bytes only
 	versionFirstRule(P, r, newAnalysis(P))
+	// the method name handed to the caller is a copy (it must stay the same after the reader moves on)
+	copyRules(P, r, "NAME-COPY", []*ssa.Function{P.Method(relThrift, "BinaryProtocol", "ReadMessageBegin"), P.Method(relThrift, "BufferReader", "ReadMessageBegin")})
 	// ---- EXC-BRANCH ----
 	um := P.Func(relThrift, "UnmarshalFastMsg")
 	mm := P.Func(relThrift, "MarshalFastMsg")
